@@ -155,7 +155,7 @@ func (db *DB) Merge() error {
 		return err
 	}
 	// 向文件写入未参与该次 merge 的最近数据文件id
-	if err := mergeFinishedFile.WriteMergeFinRecord(nonMergeFileId); err != nil {
+	if err := mergeFinishedFile.WriteMergeFinRecord(nonMergeFileId, mergeDB.activeFile.ID+1); err != nil {
 		return err
 	}
 	if err := mergeFinishedFile.Close(); err != nil {
@@ -202,6 +202,13 @@ func (db *DB) mergePath() string {
 }
 
 // 尝试加载 merge 临时目录
+//
+// 采用过程由若干文件系统操作组成, 进程可能在任意两步之间崩溃, 之后的 Open 会从头重试,
+// 因此每一步都必须幂等, 且任何一步都不能删除某条有效记录的唯一副本:
+//  1. id < count 的重写文件通过 rename 原子地覆盖同 id 的原数据文件; 重写文件不存在说明之前已移动
+//  2. count <= id < mergeID 的原数据文件内容已全部重写到更小 id 的文件中, 直接删除
+//  3. 移动 hint 文件
+//  4. 先删除完成标识, 再删除临时目录: 没有完成标识的临时目录会被忽略
 func (db *DB) loadMergeFiles() (uint32, error) {
 	mergePath := db.mergePath()
 	// 如果 merge 目录不存在或其他错误则执行正常加载流程
@@ -209,63 +216,73 @@ func (db *DB) loadMergeFiles() (uint32, error) {
 		return 0, nil
 	}
 
-	// 尝试从标识文件中取出未参与 merge 的最近数据文件 id
-	mergeID := db.getNonMergeFileID(mergePath)
+	// 尝试从标识文件中取出未参与 merge 的最近数据文件 id 和重写得到的数据文件个数
+	mergeID, count := db.getNonMergeFileID(mergePath)
 	// 标识文件不存在同样执行正常加载流程
-	if mergeID == 0 {
+	if mergeID == 0 || count > mergeID {
 		return 0, nil
 	}
 
-	defer func() {
-		// 加载完成后删除 merge 目录
-		_ = os.RemoveAll(mergePath)
-	}()
-
-	// 处理经过重写的数据文件, 处理中途失败需返回错误
-	for fileID := uint32(0); fileID < mergeID; fileID++ {
-		// 删除原数据文件
-		destName := datafile.GetFileName(db.options.DirPath, fileID, datafile.DataFileSuffix)
-		var exist bool
-		if _, err := os.Stat(destName); err == nil {
-			if err = os.Remove(destName); err != nil {
-				return 0, err
-			}
-			exist = true
-		}
-		// 将重写的数据文件移动到数据目录中
+	// 将重写的数据文件移动到数据目录中, 覆盖同 id 的原数据文件
+	for fileID := uint32(0); fileID < count; fileID++ {
 		srcFile := datafile.GetFileName(mergePath, fileID, datafile.DataFileSuffix)
 		if _, err := os.Stat(srcFile); err != nil {
-			// 如果原数据文件不存在, 则允许重写文件不存在
-			if !exist && os.IsNotExist(err) {
+			if os.IsNotExist(err) {
+				// 之前的采用过程已移动该文件
 				continue
 			}
 			return 0, err
 		}
+		destName := datafile.GetFileName(db.options.DirPath, fileID, datafile.DataFileSuffix)
 		if err := os.Rename(srcFile, destName); err != nil {
 			return 0, err
 		}
 	}
 
-	// 移动对应的 hint 文件, 移动失败应当返回错误
+	// 删除其余参与了 merge 的原数据文件
+	for fileID := count; fileID < mergeID; fileID++ {
+		destName := datafile.GetFileName(db.options.DirPath, fileID, datafile.DataFileSuffix)
+		if err := os.Remove(destName); err != nil && !os.IsNotExist(err) {
+			return 0, err
+		}
+	}
+
+	// 移动对应的 hint 文件, 不存在说明之前的采用过程已移动
 	srcHintFile := datafile.GetFileName(mergePath, 0, datafile.HintFileSuffix)
 	destHintFile := datafile.GetFileName(db.options.DirPath, 0, datafile.HintFileSuffix)
-	if _, err := os.Stat(srcHintFile); err != nil {
+	if _, err := os.Stat(srcHintFile); err == nil {
+		if err := os.Rename(srcHintFile, destHintFile); err != nil {
+			return 0, err
+		}
+	} else if !os.IsNotExist(err) {
 		return 0, err
 	}
-	if err := os.Rename(srcHintFile, destHintFile); err != nil {
+
+	// 采用完成, 先删除完成标识, 再删除 merge 目录
+	markerFile := datafile.GetFileName(mergePath, 0, datafile.MergeFinishedFileSuffix)
+	if err := os.Remove(markerFile); err != nil && !os.IsNotExist(err) {
 		return 0, err
 	}
+	_ = os.RemoveAll(mergePath)
 
 	return mergeID, nil
 }
 
-// 获取 merge 完成标识文件中保存的未参与 merge 的最近数据文件id
-// 返回 0 表示读取失败
-func (db *DB) getNonMergeFileID(dirPath string) datafile.FileID {
+// 获取 merge 完成标识文件中保存的未参与 merge 的最近数据文件 id 和重写得到的数据文件个数
+// 返回的 id 为 0 表示读取失败
+func (db *DB) getNonMergeFileID(dirPath string) (datafile.FileID, uint32) {
+	markerFile := datafile.GetFileName(dirPath, 0, datafile.MergeFinishedFileSuffix)
+	// 标识文件不存在时不应创建
+	if _, err := os.Stat(markerFile); err != nil {
+		return 0, 0
+	}
 	mergeFinishedFile, err := datafile.OpenFile(dirPath, 0, datafile.MergeFinishedFileSuffix, fio.StandardFIO)
 	if err != nil {
-		return 0
+		return 0, 0
 	}
+	defer func() {
+		_ = mergeFinishedFile.Close()
+	}()
 	return mergeFinishedFile.ReadMergeFinRecord()
 }
 
